@@ -31,6 +31,11 @@ class WireManagerBase(abc.ABC):
     def grade(self) -> None:
         """Convert data from user or neighbour to Grading objects on wires"""
 
+    def reset(self) -> None:
+        """Forgets all gradings (they are derived from chops and can be calculated again)"""
+        for wire in self.wires:
+            wire.grading = Grading(wire.length)
+
     @property
     def is_defined(self) -> bool:
         """Returns True if all gradings are defined on this axis"""
@@ -100,13 +105,12 @@ class WireChopManager(WireManagerBase):
 
         super().update()
 
+    def reset(self) -> None:
+        super().reset()
+        self.grading = Grading(0)
+
     def grade(self) -> None:
         self.update()
-
-        # start from scratch if this is not the first call (a mesh can be written more than once)
-        self.grading.specification.clear()
-        for wire in self.wires:
-            wire.grading.specification.clear()
 
         # Create a proper Grading from chops
         for chop in self.chops:
@@ -132,6 +136,11 @@ class WirePropagateManager(WireManagerBase):
 
     def update(self):
         super().update()
+
+    def reset(self) -> None:
+        super().reset()
+        # these chops were copied from neighbours
+        self.chops = []
 
     @property
     def is_defined(self) -> bool:
